@@ -66,7 +66,15 @@ pub struct Transcript {
     pub server_result: Option<String>,
 }
 
+/// one frame from the server; no scenario of this file legitimately waits longer than 10 s for one (a server that goes silent
+/// must not hang the check: the scenario then reports what it saw)
 async fn read_frame<S: tokio::io::AsyncRead + Unpin + Send + Sync>(s: &mut S) -> Result<(i32, std::io::Cursor<Vec<u8>>), String> {
+    match tokio::time::timeout(std::time::Duration::from_secs(10), read_frame_inner(s)).await {
+        Ok(r) => r,
+        Err(_) => Err("no frame from the server within 10 s".into()),
+    }
+}
+async fn read_frame_inner<S: tokio::io::AsyncRead + Unpin + Send + Sync>(s: &mut S) -> Result<(i32, std::io::Cursor<Vec<u8>>), String> {
     let len = s.read_varint().await.map_err(|e| e.to_string())?;
     let id = s.read_varint().await.map_err(|e| e.to_string())?;
     let mut body = vec![0u8; (len - 1).max(0) as usize];
@@ -516,5 +524,77 @@ pub fn order(_seed: u64) -> usize {
         problems
     });
     for p in status { println!("REPRODUCED order {p}"); found += 1; }
+    found
+}
+
+/// C06 / C09 bounded sweep of clientbound framing through the real `send_packet`: a status exchange whose Status Response grows
+/// across the 1 / 2 / 3 / 4-byte length-prefix boundaries (favicon lengths around 127, 16 383 and 2 097 151 bytes of frame, every
+/// length in a window around each boundary). The client decodes the raw byte stream with its own VarInt / frame decoder and must
+/// see exactly one Status Response (id 0x00, a string holding JSON with the favicon) and one Pong (id 0x01, the ping's payload).
+pub fn frames(_seed: u64) -> usize {
+    use passage_adapters::{ServerStatus, ServerVersion};
+    use tokio::io::AsyncWriteExt;
+    let rt = crate::rt();
+    let mut found = 0;
+    fn vi(mut v: u32, out: &mut Vec<u8>) { loop { let b = (v & 0x7f) as u8; v >>= 7; if v == 0 { out.push(b); break; } out.push(b | 0x80); } }
+    fn frame(id: i32, body: &[u8]) -> Vec<u8> {
+        let mut idb = vec![]; vi(id as u32, &mut idb);
+        let mut out = vec![]; vi((idb.len() + body.len()) as u32, &mut out); out.extend(idb); out.extend_from_slice(body); out
+    }
+    fn take_vi(b: &[u8], pos: &mut usize) -> Option<u32> {
+        let mut v: u32 = 0;
+        for i in 0..5 {
+            let x = *b.get(*pos)?; *pos += 1;
+            v |= ((x & 0x7f) as u32) << (7 * i);
+            if x & 0x80 == 0 { return Some(v); }
+        }
+        None
+    }
+    let mut sizes: Vec<usize> = vec![0, 1, 50, 6000, 20_000, 70_000, 2_200_000];
+    sizes.extend(40..140);
+    sizes.extend(16_250..16_420);
+    sizes.extend((2_097_000..2_097_160).step_by(3));
+    for fav in sizes {
+        let problem: Option<String> = rt.block_on(async move {
+            let status = ServerStatus { version: ServerVersion { name: "v".into(), protocol: 767 }, players: None, description: None, favicon: Some("f".repeat(fav)), enforces_secure_chat: None };
+            let (mut client, server_stream): (DuplexStream, DuplexStream) = tokio::io::duplex(1 << 23);
+            let mut server = Connection::new(
+                server_stream,
+                Arc::new(FixedStatusAdapter::new(Some(status), 767, 0, 10_000)),
+                Arc::new(FixedDiscoveryAdapter::new(vec![])),
+                Arc::new(Vec::<MetaFilterAdapter>::new()),
+                Arc::new(AnyStrategyAdapter::new()),
+                Arc::new(FixedAuthenticationAdapter::default()),
+                Arc::new(FixedLocalizationAdapter::default()),
+            );
+            let server = tokio::spawn(async move { server.listen().await.map_err(|e| e.to_string()) });
+            let _ = client.write_packet(hand_in::HandshakePacket { protocol_version: 767, server_address: "play.example".into(), server_port: 25565, next_state: State::Status }).await;
+            let _ = client.write_all(&frame(0x00, &[])).await;
+            let _ = client.write_all(&frame(0x01, &[0, 0, 0, 0, 0, 0, 0x12, 0x34])).await;
+            let res = tokio::time::timeout(std::time::Duration::from_secs(10), server).await;
+            let mut raw = vec![];
+            let _ = tokio::time::timeout(std::time::Duration::from_secs(5), client.read_to_end(&mut raw)).await;
+            if !matches!(res, Ok(Ok(Ok(())))) { return Some(format!("listen() ended with {res:?}")); }
+            // strict decoding of everything the server wrote
+            let mut pos = 0usize;
+            let Some(len) = take_vi(&raw, &mut pos) else { return Some("no length prefix".into()) };
+            let start = pos;
+            if start + len as usize > raw.len() { return Some(format!("first frame declares {len} bytes, only {} follow", raw.len() - start)); }
+            if take_vi(&raw, &mut pos) != Some(0) { return Some("first frame is not a Status Response (id 0x00)".into()); }
+            let Some(slen) = take_vi(&raw, &mut pos) else { return Some("no string length".into()) };
+            if pos + slen as usize != start + len as usize { return Some(format!("Status Response: frame length {len} does not end where its string (length {slen}) ends")); }
+            let body = &raw[pos..pos + slen as usize];
+            let ok_json = serde_json::from_slice::<serde_json::Value>(body).ok().and_then(|v| v.get("favicon").and_then(|f| f.as_str().map(|s| s.len()))) == Some(fav);
+            if !ok_json { return Some("Status Response body is not the JSON with the configured favicon".into()); }
+            pos += slen as usize;
+            let pong = frame(0x01, &[0, 0, 0, 0, 0, 0, 0x12, 0x34]);
+            if raw[pos..] != pong[..] { return Some(format!("after the Status Response the client received {:?}.. ({} bytes), not exactly one Pong", &raw[pos..raw.len().min(pos + 12)], raw.len() - pos)); }
+            None
+        });
+        if let Some(p) = problem {
+            if found < 5 { println!("REPRODUCED frames status exchange with a favicon of {fav} bytes: {p}"); }
+            found += 1;
+        }
+    }
     found
 }
